@@ -742,6 +742,7 @@ func checkProperty(prop, tier string, seed uint64, runs, budget, workers int, re
 	}
 	// a run that exceeded the liveness bound is executed again, alone, before anything is said about it
 	sort.Slice(hung, func(i, j int) bool { return hung[i] < hung[j] })
+	hangsConfirmed := 0
 	for hi, h := range hung {
 		if hi >= 3 {
 			break
@@ -761,6 +762,12 @@ func checkProperty(prop, tier string, seed uint64, runs, budget, workers int, re
 			infra("run %d of %s does not terminate (case %s); this property has no liveness clause, so this is reported as trouble of the harness or the tree, not as a violation", h, prop, p)
 		}
 		founds = append(founds, found{h, caseJSON, v})
+		hangsConfirmed++
+	}
+	if len(hung) >= 3 && hangsConfirmed == 0 {
+		// several runs stopped making progress inside a long-lived worker but each finishes when executed alone:
+		// not a property violation that replays, but not a loaded machine either
+		infra("%d runs exceeded the liveness bound inside long-lived worker processes (first: run %d) although each finishes alone: something in the process outlives a run (a leaked lock, semaphore or goroutine?)", len(hung), hung[0])
 	}
 
 	// ---- classify, minimise, replay
